@@ -974,8 +974,13 @@ class Simplifier:
 
                 for (a, av), (b, bv) in itertools.permutations(((left, l), (right, r))):
                     if isinstance(a, self.LT_LTE) and isinstance(b, self.LT_LTE):
+                        if av == bv and type(a) is not type(b):
+                            # same bound: AND keeps the strict comparison, OR the inclusive one
+                            return a if isinstance(a, exp.LT) != or_ else b
                         return left if (av > bv if or_ else av <= bv) else right
                     if isinstance(a, self.GT_GTE) and isinstance(b, self.GT_GTE):
+                        if av == bv and type(a) is not type(b):
+                            return a if isinstance(a, exp.GT) != or_ else b
                         return left if (av < bv if or_ else av >= bv) else right
 
                     # we can't ever shortcut to true because the column could be null
